@@ -30,13 +30,14 @@ try:
     from ducc0.misc.experimental import div_conj, mul_conj
     def mul_conj2(a, b):
         assert a.device_id == b.device_id
-        if a.device_id == -1:
+        # the ducc kernel does not broadcast (partial-space diagonals do)
+        if a.device_id == -1 and a.shape == b.shape:
             return AnyArray(mul_conj(a.val, b.val))
         return a*b.conj()
 
     def div_conj2(a, b):
         assert a.device_id == b.device_id
-        if a.device_id == -1:
+        if a.device_id == -1 and a.shape == b.shape:
             return AnyArray(div_conj(a.val, b.val))
         return a/b.conj()
 
